@@ -21,6 +21,9 @@ use std::mem;
 
 verus! {
 
+// Assumption A-64BIT: the target has 64-bit usize (the crate is only built for such targets here)
+global size_of usize == 8;
+
 // ------------------------------------------------------------------ time shim (R6)
 // std::time::{Instant,Duration} are replaced by these two structs.  `nanos` is the number of
 // nanoseconds (since an arbitrary epoch for Instant).  Panics of the std operators are
